@@ -179,6 +179,22 @@ fn c08_q_traits_into_rangemap_safe_n2() {
 #[kani::unwind(5)]
 #[kani::stub(range_map::RangeMap::try_from_iter, Recorder::try_from_iter)]
 fn c08_q_parser_into_rangemap_safe_n2() {
+    parser_into_rangemap_safe_n2();
+}
+
+/// F: breakpad_symbols::sym_file::parser::into_rangemap_safe as used by SymbolParser::finish (FUNC / STACK CFI / STACK WIN tables) — same body as c08_q_parser_into_rangemap_safe_n2, registered under C09 because "parsing never panics" depends on the `.unwrap()` at the end of this function never firing
+/// I: 2 records with symbolic valid ranges (start <= end, incl. end = 2^64-1) and values
+/// B: 2 records
+/// A: range_map::RangeMap::try_from_iter replaced by a recorder that returns Ok iff its documented precondition holds
+/// O: the constructor's precondition holds for what the parser hands it, so finish() cannot panic on overlapping, duplicate or adjacent records
+#[kani::proof]
+#[kani::unwind(5)]
+#[kani::stub(range_map::RangeMap::try_from_iter, Recorder::try_from_iter)]
+fn c09_q_finish_rangemap_never_fails() {
+    parser_into_rangemap_safe_n2();
+}
+
+fn parser_into_rangemap_safe_n2() {
     let ents = [Ent::any(), Ent::any()];
     kani::assume(ents[0].range().is_some() && ents[1].range().is_some());
     let v = vec![(ents[0].range().unwrap(), Val(ents[0].tag)), (ents[1].range().unwrap(), Val(ents[1].tag))];
